@@ -160,3 +160,38 @@ Theorem C18_add_single_aliases :
     step st1 (OMCopy m other) = (st2, o2) /\ den st2 x <> den st x.
 Proof. exact add_single_aliases. Qed.
 Print Assumptions C18_add_single_aliases.
+
+(** * The rule table under the read-only queries (Model/RuleTable.v)
+    sum_product / sum_products / viterbi read the grammar through HRG.rules(x), for every
+    nonterminal x -- also those that have no rule. *)
+Require Import Fggs.Model.RuleTable Fggs.Proofs.RuleTable_proofs.
+
+(** whatever labels are looked up, the table (dict lhs -> rules, with its key order) is the one
+    given: no key is inserted for a nonterminal without rules *)
+Theorem C18_rules_lookup_pure : forall t ks, fst (query t ks) = t.
+Proof. exact query_table_unchanged. Qed.
+Print Assumptions C18_rules_lookup_pure.
+
+Theorem C18_rules_after_add_rule :
+  forall t k r, snd (rules (add_rule t k r) k) = snd (rules t k) ++ [r].
+Proof. exact rules_after_add_rule. Qed.
+Print Assumptions C18_rules_after_add_rule.
+
+(** the check function of the correspondence accepts exactly the unchanged observations *)
+Theorem C18_ruletable_check_sound :
+  forall before ks after eq0 eq1,
+    ruletable_check (before, ks, after, eq0, eq1) = 0 -> after = before /\ eq0 = eq1.
+Proof. exact ruletable_check_sound. Qed.
+Print Assumptions C18_ruletable_check_sound.
+
+Theorem C18_ruletable_check_complete :
+  forall before ks eq0, ruletable_check (before, ks, before, eq0, eq0) = 0.
+Proof. exact ruletable_check_complete. Qed.
+Print Assumptions C18_ruletable_check_complete.
+
+(** the lookup through a defaultdict (self._rules[lhs]; = seeded/C18-f) is read-only exactly on
+    grammars in which every label looked up has an entry *)
+Theorem C18_defaultdict_lookup_pure_iff :
+  forall t ks, fst (query_dd t ks) = t <-> (forall k, In k ks -> tget t k <> None).
+Proof. exact query_dd_unchanged_iff. Qed.
+Print Assumptions C18_defaultdict_lookup_pure_iff.
